@@ -428,6 +428,15 @@ def oracle_refuse(g):
     """every error return of hostConn before the join: closed, nothing back, nothing at any endpoint"""
     if g.get("setup_err"):
         return ("refuse-setup", "could not start the proxy world: %s" % g["setup_err"])
+    for m in g.get("mis") or []:
+        want = "EP %s GOT %s" % (m["expect"], m["tag"])
+        if m["reply"] != want or m["payload"] != "ok":
+            return ("bytes-at-wrong-endpoint",
+                    "%s mode: after three front connections whose hello read failed (client closed inside the header / inside "
+                    "the record / oversize record), four good connections at the same time to /ep0 and /ep1, round %d: the "
+                    "connection tagged %s for %s was answered %r and its endpoint judged the payload it read %r (expected %r "
+                    "and its own %d tagged bytes)" % (g["mode"], m["round"], m["tag"], m["expect"], m["reply"], m["payload"],
+                                                     want, 8192))
     for o in g["obs"]:
         sc = "%s mode, world %s, scenario %s" % (g["mode"], o["world"], o["scenario"])
         if o["expect"] == "refused":
@@ -553,6 +562,8 @@ def run(ck):
             ck.coverage["e2e_connections"] = ck.coverage.get("e2e_connections", 0) + e["conns"]
             ck.coverage["e2e_bytes_echoed"] = ck.coverage.get("e2e_bytes_echoed", 0) + e["echoed"]
         elif s == "refuse" and c.get("refuse"):
+            for m in c["refuse"].get("mis") or []:
+                ck.count("refuse-mis-" + c["refuse"]["mode"], key=("mis", c["refuse"]["mode"], m["tag"]), trivial=False)
             for o in c["refuse"]["obs"]:
                 ck.count("refuse-" + c["refuse"]["mode"], key=("refuse", c["refuse"]["mode"], o["world"], o["scenario"]),
                          trivial=False)
